@@ -210,7 +210,10 @@ PROPS = {
     'C05': {
         'steps': [{'script': 'corr_arith.py', 'timeout': 1500, 'timeout_thorough': 6000},
                   {'script': 'corr_graph.py', 'timeout': 1500, 'timeout_thorough': 6000},
-                  {'script': 'oracle_static.py', 'timeout': 1500, 'timeout_thorough': 6000}],
+                  {'script': 'oracle_static.py', 'timeout': 1500, 'timeout_thorough': 6000},
+                  # the external-buffer (large model) storage format: the bytes selected by
+                  # offset/size must be the constant the in-place form stores
+                  {'script': 'corr_serial.py', 'timeout': 1500, 'timeout_thorough': 6000}],
         'required_theorems': ['C05_int4_stored_length', 'C05_int4_unpack_pack',
                               'C05_symmetric_constant_within_half_step',
                               'C05_asymmetric_constant_within_half_step',
